@@ -60,6 +60,12 @@ pub(crate) fn bin(pos: bool) -> Option<ModKind> {
     Some(ModKind::Binary(if pos { BinMod::Positive } else { BinMod::Negative }))
 }
 
+/// `Modifiers::new()` without `core::array::from_fn`: the real constructor maps a closure over `[(); 26]`, a
+/// standard-library loop that would force a 28-fold unwinding of every harness that merely *builds* a matrix
+pub(crate) fn mods_new() -> Modifiers {
+    Modifiers { nodes: [None; crate::lexer::NodeType::count()], feats: [None; FType::count()], suprs: SupraSegs::new() }
+}
+
 /// an empty word (private `americanist` flag => must go through the constructor; with an empty
 /// string the constructor touches none of the lazy_static tables)
 pub(crate) fn empty_word() -> Word {
